@@ -467,6 +467,22 @@ func c16Subscribe[T any](e *Env, o ro.Observable[T], obs ro.Observer[T], ctx con
 	return h
 }
 
+// c16Quiesce settles without moving the clock, robustly. An actor that spin-waits (the library's spin lock: a
+// simulated runtime.Gosched loop) is re-enabled only when a *runnable* actor takes a step; when the lock holder
+// released the lock on its way into a sleep or a blocking operation nobody does, and Settle reports a quiescence
+// that hides an actor which could run. A step of the driver re-enables the spinners; repeat until nobody moves.
+func c16Quiesce(e *Env) {
+	for i := 0; i < 16; i++ {
+		e.Settle()
+		before := e.Step()
+		e.Yield()
+		e.Settle()
+		if e.K.Capped() || e.Step()-before <= 2 {
+			return
+		}
+	}
+}
+
 // c16Play subscribes obs to o, applies the scenario's cut and lets `horizon` of simulated time pass (after the
 // cut, if any). count reports the number of callbacks the observer has entered. The result is false when the
 // step cap was hit (nothing may be judged then).
@@ -483,6 +499,7 @@ func c16Play[T any](e *Env, s *c16Session, o ro.Observable[T], obs ro.Observer[T
 	s.H = c16Subscribe(e, o, obs, ctx)
 	if s.CutKind == 0 {
 		e.SettleFor(horizon)
+		c16Quiesce(e)
 		return !e.K.Capped()
 	}
 	e.Go("cutter", func() {
@@ -519,6 +536,10 @@ func c16Play[T any](e *Env, s *c16Session, o ro.Observable[T], obs ro.Observer[T
 	}
 	if s.CutReturned {
 		// RunUntil evaluates its condition at a quiescent point reached without moving the clock
+		c16Quiesce(e)
+		if e.K.Capped() {
+			return false
+		}
 		s.CutSettled = true
 		s.AtCut = count()
 		e.Probe("c16-cut-applied")
@@ -526,6 +547,7 @@ func c16Play[T any](e *Env, s *c16Session, o ro.Observable[T], obs ro.Observer[T
 		e.Probe("c16-cut-not-reached")
 	}
 	e.SettleFor(horizon)
+	c16Quiesce(e)
 	if e.K.Capped() {
 		return false
 	}
